@@ -34,11 +34,36 @@ class _Quiet:
         sys.stdout = self._o
 
 
+class ReplaySnap:
+    '''Fallback snapshot of a world that cannot be pickled (the library under test has put a closure -- a lambda, a
+    local function -- into its event queue or onto an asset): the recipe to build an equal world, i.e. the constructor
+    arguments and the list of labels applied so far.  Restoring costs a linear replay instead of an unpickling; on the
+    pinned tree it never happens.'''
+
+    def __init__(self, cls, args, kwargs, trail):
+        self.cls, self.args, self.kwargs, self.trail = cls, args, kwargs, list(trail)
+
+    def build(self):
+        with _Quiet():
+            w = self.cls(*self.args(), **self.kwargs)
+            for lab in self.trail:
+                w.apply(lab)
+        return w
+
+
 def snapshot(world):
-    return pickle.dumps(world, pickle.HIGHEST_PROTOCOL)
+    try:
+        return pickle.dumps(world, pickle.HIGHEST_PROTOCOL)
+    except (AttributeError, pickle.PicklingError, TypeError):
+        r = getattr(world, 'recipe', None)
+        if r is None:
+            raise
+        return r()
 
 
 def restore(snap):
+    if isinstance(snap, ReplaySnap):
+        return snap.build()
     return pickle.loads(snap)
 
 
